@@ -122,6 +122,7 @@ type seqCase struct {
 	staleBase    int           // events before this index belong to the maintenance a stale write raced with
 	returnedAt   map[int]int64 // value -> clock when the write that created it returned
 	touched      []int
+	volunteered  map[int]int // key -> how often a bulk loader returned it unasked in this case
 	inTarget     bool
 	rndConst     uint32
 	pendingChans     []pendingRef
@@ -169,6 +170,7 @@ func (s *seqCase) setup(caseNo int) {
 	r := s.r
 	s.nextVal = 100
 	s.returnedAt = map[int]int64{}
+	s.volunteered = map[int]int{}
 	s.staleBase = 0
 	s.nkeys = 3 + r.intn(4)
 	combo := caseNo % 12
@@ -455,6 +457,15 @@ func (s *seqCase) bulkOutcome(keys []int, allowPanic bool) (string, map[int]int,
 				if _, ok := m[k]; !ok {
 					m[k] = s.val()
 				}
+			}
+		}
+		requested := map[int]bool{}
+		for _, k := range keys {
+			requested[k] = true
+		}
+		for k := range m {
+			if !requested[k] {
+				s.volunteered[k]++ // a key the loader returned without being asked for it
 			}
 		}
 		return pairsStr("M", m), m, nil, false
@@ -1039,6 +1050,36 @@ func (s *seqCase) step() {
 		s.maint("WeightedSize/GetMaximum", func() { c.WeightedSize(); c.GetMaximum() })
 		return
 	default:
+		if s.maintMode && r.chance(45) {
+			// the write events recorded so far reach the maintenance thread in another order (as they
+			// may when the writers are different goroutines): re-queue them permuted
+			if _, wb := otter.VerifDrainState(c); wb >= 2 && wb <= 12 {
+				n := int(wb)
+				order := make([]int, n)
+				for i := range order {
+					order[i] = i
+				}
+				switch r.intn(3) {
+				case 0: // swap two neighbours
+					i := r.intn(n - 1)
+					order[i], order[i+1] = order[i+1], order[i]
+				case 1: // reverse
+					for i, j := 0, n-1; i < j; i, j = i+1, j-1 {
+						order[i], order[j] = order[j], order[i]
+					}
+				default: // shuffle
+					for i := n - 1; i > 0; i-- {
+						j := r.intn(i + 1)
+						order[i], order[j] = order[j], order[i]
+					}
+				}
+				if otter.VerifPermuteWriteBuffer(c, order) {
+					s.t.line("P %s", intsStr(order))
+					s.sum.Dist["write_buffer_permuted"]++
+				}
+			}
+			return
+		}
 		// run some queued tasks
 		n := r.intn(3)
 		for i := 0; i < n && len(s.queue) > 0; i++ {
@@ -1083,9 +1124,15 @@ func runSeqMode(seed uint64, scale int, out string, maintMode bool) *summary {
 		s.setup(cn)
 		sum.Cases++
 		nops := 150 + s.r.intn(200)
+		// in a third of the closed-loop cases the queued maintenance tasks are run rarely, so that several
+		// write events pile up in the write buffer (and can be re-queued in another order)
+		drainChance := 65
+		if maintMode && cn%3 == 1 {
+			drainChance = 10
+		}
 		for i := 0; i < nops; i++ {
 			s.step()
-			if s.r.chance(65) {
+			if s.r.chance(drainChance) {
 				s.drain()
 			}
 			s.snapshot()
@@ -1150,6 +1197,10 @@ func (s *seqCase) finish() {
 				// load half, a key that belongs to the reload half)
 				if seen[k] < 1 {
 					s.sum.fail("C11", "bulkrefresh-result-count", "BulkRefresh delivered no result for a requested key",
+						fmt.Sprintf("%s keys=%v key=%d count=%d", s.desc, p.keys, k, seen[k]))
+				}
+				if seen[k] > 1+s.volunteered[k] {
+					s.sum.fail("C11", "bulkrefresh-duplicate-result", "BulkRefresh delivered more than one result for a requested key that no bulk loader volunteered",
 						fmt.Sprintf("%s keys=%v key=%d count=%d", s.desc, p.keys, k, seen[k]))
 				}
 			}
